@@ -121,3 +121,121 @@ def ctx_of(sc, names):
             "alleles": [[ord(x) for x in col] for col in sc["alleles"]],
             "samples": [[{"seq": b(r["seq"]), "off": r["off"], "rev": r["rev"]} for r in recs] for recs in sc["samples"]],
             "pre_strict": sc["pre_strict"], "pre_literal": sc["pre_literal"]}
+
+
+# ---- ska lo scenarios (C17, C18) ---------------------------------------------------------------
+def mers_unique_per_position(samples, n):
+    """contiguous n-mers unique per (ancestor position, strand) over all samples; none self-RC"""
+    seen = {}
+    key = lambda x: [ORDER.index(c) for c in x]
+    for recs in samples:
+        for r in recs:
+            s, off, rev = r["seq"], r["off"], r["rev"]
+            for i in range(len(s) - n + 1):
+                w = s[i:i + n]
+                if any(c not in "ACGT" for c in w):
+                    continue
+                rcw = revcomp(w)
+                if rcw == w:
+                    return False
+                flip = key(rcw) < key(w)
+                can = rcw if flip else w
+                apos = off + len(s) - i - n if rev else off + i
+                val = (apos, flip != rev)
+                if seen.setdefault(can, val) != val:
+                    return False
+    return True
+
+
+def spaced(sites, samples, gap, margin):
+    for i, p in enumerate(sites):
+        for j, q in enumerate(sites):
+            if i != j and abs(p - q) < gap:
+                return False
+        for recs in samples:
+            if not any(p - r["off"] >= margin and (r["off"] + len(r["seq"]) - 1) - p >= margin for r in recs):
+                return False
+    return True
+
+
+def lo_snp_scenario(rng, k, ns, length, nsites, tries=100):
+    for _ in range(tries):
+        anc = gen.rand_seq(rng, length)
+        if not mers_unique_per_position([[{"seq": anc, "off": 0, "rev": False}]], k - 1):
+            continue
+        sites, lo, hi = [], k, length - 1 - k
+        for _ in range(nsites * 30):
+            p = rng.randint(lo, hi)
+            if all(abs(p - q) >= 2 * k for q in sites):
+                sites.append(p)
+            if len(sites) == nsites:
+                break
+        sites.sort()
+        if not sites:
+            continue
+        alleles = []
+        for p in sites:
+            alts = [x for x in "ACGT" if x != anc[p]]
+            col = [anc[p]] * ns
+            for a in rng.sample(alts, rng.choice([1, 1, 1, 2])):
+                for s in rng.sample(range(ns), rng.randint(1, max(1, ns // 2))):
+                    col[s] = a
+            if len(set(col)) < 2:
+                col[rng.randrange(ns)] = alts[0]
+            alleles.append(col)
+        samples = derive(rng, anc, sites, alleles, ns, split_prob=0.0, k=k)
+        return {"ancestor": anc, "sites": sites, "alleles": alleles, "samples": samples, "k": k, "pre_literal": True,
+                "pre_strict": mers_unique_per_position(samples, k - 1) and spaced(sites, samples, 2 * k, k)}
+    return None
+
+
+def lo_indel_scenario(rng, k, ns, length, nind, tries=100):
+    """ancestor + planted insertions/deletions (length 1..10 < k, >= 4k apart and from the ends), carrier sets"""
+    for _ in range(tries):
+        anc = gen.rand_seq(rng, length)
+        if not mers_unique_per_position([[{"seq": anc, "off": 0, "rev": False}]], k - 1):
+            continue
+        pos, lo, hi = [], 4 * k, length - 4 * k
+        if hi <= lo:
+            return None
+        for _ in range(nind * 30):
+            p = rng.randint(lo, hi)
+            if all(abs(p - q) >= 4 * k + 10 for q in pos):
+                pos.append(p)
+            if len(pos) == nind:
+                break
+        pos.sort()
+        if not pos:
+            continue
+        inds = []
+        for p in pos:
+            ln = rng.randint(1, min(10, k - 1))
+            kind = rng.choice(["ins", "del"])
+            carriers = set(rng.sample(range(ns), rng.randint(1, ns - 1)))
+            if kind == "ins":
+                seq = gen.rand_seq(rng, ln)
+                long = carriers                     # carriers have the extra bases
+            else:
+                seq = anc[p:p + ln]
+                long = set(range(ns)) - carriers    # carriers lack them
+            inds.append({"pos": p, "len": ln, "kind": kind, "seq": seq, "carriers": sorted(carriers), "long": sorted(long)})
+        samples = []
+        for s in range(ns):
+            g, shift = anc, 0
+            for ind in inds:
+                if s in ind["carriers"]:
+                    p = ind["pos"] + shift
+                    if ind["kind"] == "ins":
+                        g = g[:p] + ind["seq"] + g[p:]
+                        shift += ind["len"]
+                    else:
+                        g = g[:p] + g[p + ind["len"]:]
+                        shift -= ind["len"]
+            rev = rng.random() < 0.5
+            samples.append([{"seq": revcomp(g) if rev else g, "off": 0, "rev": rev}])
+        # uniqueness is positional only up to the indel shifts: evaluate it on each sample alone plus
+        # pairwise through canonical k-1-mers shared at inconsistent "neighbourhoods" is too strict to express
+        # with shifted coordinates, so require: every sample on its own has unique (k-1)-mers on both strands
+        ok = all(mers_unique_per_position([[{"seq": r["seq"], "off": 0, "rev": False}] for r in recs][:1], k - 1) for recs in samples)
+        return {"ancestor": anc, "planted": inds, "samples": samples, "k": k, "pre_strict": ok}
+    return None
